@@ -19,8 +19,8 @@ theorem takeAlloc_spec (h : Heap) : ∃ bud, (takeAlloc h).1 = { h with budget :
     | zero => exact ⟨none, rfl, fun h => by cases h⟩
     | succ k => exact ⟨some k, rfl, fun h => by cases h⟩
 
-/-- the slots of an object that operations look through -/
-def Obj.slots (o : Obj) : List (Option Nat) × List (Option Nat) := (o.bufs, o.views)
+/-- everything about an object except its reference count -/
+def Obj.erase (o : Obj) : Obj := { o with rc := 0 }
 
 /-- what the slot-copying loops guarantee about the rest of the heap -/
 structure SlotsOk (h h' : Heap) : Prop where
@@ -30,7 +30,7 @@ structure SlotsOk (h h' : Heap) : Prop where
   bufLive : ∀ b, (h.bufs b).isSome → (h'.bufs b).isSome
   budget : h.budget = none → h'.budget = none
   bufsOld : ∀ b, b < h.nbuf → h'.bufs b = h.bufs b
-  objsOld : ∀ j, j < h.nobj → (h'.objs j).map Obj.slots = (h.objs j).map Obj.slots
+  objsOld : ∀ j, j < h.nobj → (h'.objs j).map Obj.erase = (h.objs j).map Obj.erase
 
 theorem SlotsOk.refl (h : Heap) : SlotsOk h h :=
   ⟨Nat.le_refl _, Nat.le_refl _, fun _ h => h, fun _ h => h, fun h => h, fun _ _ => rfl, fun _ _ => rfl⟩
@@ -228,7 +228,7 @@ theorem copyRefs_bal (cp : Heap → Nat → Heap × Option Nat) (bound : Nat) (h
             · simpa [upd, hzx] using hz
           · intro j _
             by_cases hjx : j = x
-            · subst hjx; simp [hox, Obj.slots]
+            · subst hjx; simp [hox, Obj.erase]
             · simp [upd, hjx]
         | deep =>
           simp only [copyRefs] at he
